@@ -124,7 +124,9 @@ def exercise(ctx):
                     kinds.append(k)
                 return req, draw(st.sampled_from(["sync", "async"])), kinds
 
-            def one(sc, f=f, svc=svc, m=m, mode=mode, in_desc=in_desc, out_desc=out_desc, path_=path_, variables=variables):
+            caller_md, state = [("x-verif-marker", "m1")], {}
+
+            def one(sc, f=f, svc=svc, m=m, mode=mode, in_desc=in_desc, out_desc=out_desc, path_=path_, variables=variables, caller_md=caller_md, state=state):
                 req, kind, kinds = sc
                 if mode == "explicit":
                     expected = R.explicit(m["routing"], lambda p: get_path(req, p))
@@ -145,15 +147,18 @@ def exercise(ctx):
                 rig.grpc.respond = lambda rec: reply
                 rig.grpc.take()
                 pyreq = to_python(ctx, m["input"], req)
+                # a history over calls: every other call hands in the SAME caller-owned metadata list (a Sequence, as annotated)
+                state["n"] = state.get("n", 0) + 1
+                kwmd = {"metadata": caller_md} if state["n"] % 2 == 0 else {}
                 detail = {"rpc": path_, "client": kind, "mode": mode, "request": str(req)[:400], "routing": m.get("routing"), "uri": (m.get("http") or {}).get("uri")}
                 try:
                     if kind == "sync":
-                        r = meth(request=pyreq)
+                        r = meth(request=pyreq, **kwmd)
                         if m.get("ss"):
                             list(r)
                     else:
                         async def go():
-                            r = await meth(request=pyreq)
+                            r = await meth(request=pyreq, **kwmd)
                             if m.get("ss"):
                                 [x async for x in r]
                         rig.run(go())
@@ -163,6 +168,10 @@ def exercise(ctx):
                 calls = [c for c in rig.grpc.take() if c["method"] == path_]
                 if len(calls) != 1:
                     raise Fail("call-count", f"{path_} ({kind}): {len(calls)} calls", detail)
+                if caller_md != [("x-verif-marker", "m1")]:
+                    raise Fail("caller-metadata-changed", f"{path_} ({kind}): the caller's metadata list is now {caller_md}", detail)
+                if kwmd and dict(calls[0]["metadata"]).get("x-verif-marker") != "m1":
+                    raise Fail("caller-metadata-lost", f"{path_} ({kind}): the caller's metadata did not reach the server", detail)
                 got = header_pairs(calls[0]["metadata"], f"{path_} ({kind})")
                 detail["header"] = got[0] if got else None
                 detail["expected"] = expected
